@@ -136,6 +136,22 @@ def build_cases(ctx, env):
                             o = G.Opts(True, lng, real, simap, False, ls)
                             cases.append(Case(w, G.IFACE, o, "ifaceopts:" + w[0]))
                             cases.append(Case(("a", [w, w]), G.Slice(G.IFACE), o, "ifaceopts-elem:" + w[0]))
+    # containers, objects, references
+    for fam, toks2, types2 in (("list", G.LIST_TOKENS, G.LIST_TYPES), ("map", G.MAP_TOKENS, G.MAP_TYPES), ("obj", G.OBJ_TOKENS, G.OBJ_TYPES)):
+        for w in toks2:
+            for t in types2:
+                cases.append(Case(w, t, default, fam + ":" + w[0]))
+                cases.append(Case(w, t, refopt, fam + "-ref:" + w[0]))
+                if t["k"] == "iface" or (t["k"] == "slice" and t["e"]["k"] == "iface"):
+                    for o in (G.Opts(True, "int64", "f32", True, True, True), G.Opts(False, "bigint", "bigfloat", True, False, True),
+                              G.Opts(True, "uint", "f64", False, True, False), G.Opts(True, "int", "f64", False, False, True)):
+                        cases.append(Case(w, t, o, fam + "-opts:" + w[0]))
+    for w, t in G.ref_cases():
+        cases.append(Case(w, t, refopt, "refs:" + w[0]))
+        cases.append(Case(w, t, G.Opts(False, "int", "f64", True, True, False), "refs-opts:" + w[0]))
+        for pname, w2, t2 in positions(w, t):
+            if pname in ("ptr", "mapval"):
+                continue   # reference indices shift inside a wrapper
     for i, c in enumerate(cases):
         c.id = i + 1
     return cases
